@@ -2,7 +2,7 @@
    Statements only; proofs in Proofs/ARP.v, model in Model/AR.v.  R is the autocorrelation sequence
    the estimators work from (supplied, or utils.autocorr(x) — its correctness is property C20);
    all statements hold for every order and every complex sequence R meeting the stated guards. *)
-From Coq Require Import QArith List Bool Arith Lia Psatz.
+From Coq Require Import QArith List Bool Arith Lia Psatz Lqa.
 From NT Require Import QC AR ARP.
 Import ListNotations.
 Open Scope Q_scope.
@@ -43,10 +43,22 @@ Theorem C10_sigma_pos : forall R order,
 Proof. exact sigma_pos. Qed.
 Print Assumptions C10_sigma_pos.
 
+(* positive definite Toeplitz forms (what a biased autocorrelation estimate of a non-zero signal has)
+   give a positive innovation variance and reflection coefficients of modulus < 1, for every order:
+   the error filter c = (1, -a_1, .., -a_p) has  c^H T c = b_p *)
+Theorem C10_sigma_pos_of_pd : forall R order,
+  (1 <= order < length R)%nat -> im (nthC R 0) == 0 ->
+  (forall m, (1 <= m <= S order)%nat -> pos_def (Rf R) m) ->
+  0 < snd (AR_est_LD R order) /\
+  forall q, (1 <= q <= order)%nat -> cnorm2 (nthC (fst (AR_est_LD R q)) (q - 1)) < 1.
+Proof. exact sigma_pos_of_pd. Qed.
+Print Assumptions C10_sigma_pos_of_pd.
+
 (* PARTIAL.  Full statement of the property: "for any real or complex signal the reported innovation
    variance is positive and the fitted model is stable".  Proved: C10_sigma_pos (positivity GIVEN
-   |k_q| < 1 for q = 1..order).  Missing: that |k_q| < 1 holds for the autocorrelation estimate of an
-   arbitrary signal (needs positive definiteness of the FFT-based biased estimate) and that |k_q| < 1
+   |k_q| < 1 for q = 1..order).  and C10_sigma_pos_of_pd (positivity and |k_q| < 1 GIVEN positive definite Toeplitz forms).
+   Missing: that the FFT-based biased autocorrelation estimate of an arbitrary non-zero signal is
+   positive definite (a Gram-matrix argument on top of C20's lagged-sum theorem) and that |k_q| < 1
    implies all roots of 1 - sum a_k z^-k lie inside the unit circle (Schur-Cohn).  Both are checked
    numerically on every generated signal (sigma > 0, root moduli < 1) by the search oracle only. *)
 Theorem C10_positive_stable_partial : forall R order,
@@ -201,4 +213,21 @@ Example C10_generator_hypothesis_met :
 Proof.
   split; [reflexivity|]. intros n Hn.
   do 5 (destruct n as [|n]; [vm_compute; split; reflexivity|]). simpl in Hn. lia.
+Qed.
+
+(* positive definiteness hypothesis of C10_sigma_pos_of_pd met by a concrete complex sequence (order 1) *)
+Definition exR1 : list C := [(2, 0); (1, 1#2); (1#3, 0)].
+Lemma Qsq_nonneg' (x : Q) : 0 <= x * x.
+Proof. destruct (Qlt_le_dec x 0) as [H|H].
+  - setoid_replace (x*x) with ((-x)*(-x)) by ring. apply Qmult_le_0_compat; lra.
+  - apply Qmult_le_0_compat; assumption. Qed.
+Example C10_pd_hypothesis_met : forall m, (1 <= m <= 2)%nat -> pos_def (Rf exR1) m.
+Proof.
+  intros m Hm c [E1 E2]. assert (Hc : m = 1%nat \/ m = 2%nat) by lia.
+  destruct (c 0%nat) as [x0 y0] eqn:C0. destruct (c 1%nat) as [x y] eqn:C1.
+  unfold c1, re, im in E1, E2; simpl in E1, E2.
+  destruct Hc as [-> | ->]; unfold hform, Rlag, Rf, exR1, nthC; simpl; rewrite ?C0, ?C1;
+    unfold cmul, cadd, cconj, c0, re, im; simpl; rewrite ?E1, ?E2.
+  - reflexivity.
+  - pose proof (Qsq_nonneg' (x + (1#2))) as S1. pose proof (Qsq_nonneg' (y + (1#4))) as S2. lra.
 Qed.
